@@ -147,7 +147,8 @@ let dop_of = function
   | L [A "rc"; c; p] -> RegClass (natv c, natv p)
   | L [A "rn"; c; p] -> RegName (natv c, natv p)
   | L [A "rp"; q; p] -> RegPred (natv q, natv p)
-  | L [A "pr"; c] -> Print (natv c)
+  | L [A "pr"; c] -> Print (natv c, natv c)
+  | L [A "pr"; c; i] -> Print (natv c, natv i)
   | L [A "ir"; c; cs; cd; rd] -> IsReg (natv c, boolv cs, boolv cd, boolv rd)
   | _ -> failwith "dop"
 let dobs_out = function
